@@ -16,11 +16,21 @@ structure RegInv2 (items : List (Key × Item)) (P : List (String × Decl)) : Pro
   routeFound : ∀ ns r, (ns, Decl.route r) ∈ P → ∃ vs, items.lookup (ns, r.name) = some (.routes vs)
   nobuiltin : ∀ ns n, (items.lookup (ns, n)).isSome → TyKind.ofName? n = none
 
+/-- the struct / union declaration an environment entry holds -/
+def shapeOf : Item → Option TypeDecl
+  | .type d => some d
+  | _ => none
+
+def declShape : Decl → Option TypeDecl
+  | .type d => some d
+  | _ => none
+
 inductive Shape (items : List (Key × Item)) (ns : String) (d : Decl) : List (Key × Item) → Prop
   | skip : anyName d = none → Shape items ns d items
   | fresh (name : String) (i : Item) : anyName d = some name → items.lookup (ns, name) = none →
       TyKind.ofName? name = none →
       (∀ r, d = .route r → i = .routes [r.version]) → ((∀ r, d ≠ .route r) → ∀ vs, i ≠ .routes vs) →
+      shapeOf i = declShape d →
       Shape items ns d (((ns, name), i) :: items)
   | more (r : RouteDecl) (vs : List Int) : d = .route r → items.lookup (ns, r.name) = some (.routes vs) →
       ¬ r.version ∈ vs → Shape items ns d (((ns, r.name), .routes (r.version :: vs)) :: items)
@@ -35,20 +45,20 @@ theorem lookupSym_none_builtin {items : List (Key × Item)} {ns name} (h : looku
     | some k => simp [hk] at h
 
 theorem bindNew_shape {st ns name i c st'} {d : Decl} (h : bindNew st ns name i c = .ok st')
-    (hn : anyName d = some name) (hr : ∀ r, d ≠ .route r) (hi : ∀ vs, i ≠ .routes vs) :
+    (hn : anyName d = some name) (hr : ∀ r, d ≠ .route r) (hi : ∀ vs, i ≠ .routes vs) (hsh : shapeOf i = declShape d) :
     Shape st.items ns d st'.items := by
   unfold bindNew at h
   split at h
   · cases h
   · rename_i hl
     rw [(checkCanon_items h).1]
-    exact .fresh name i hn (lookupSym_none hl) (lookupSym_none_builtin hl) (fun r hd => absurd hd (hr r)) (fun _ => hi)
+    exact .fresh name i hn (lookupSym_none hl) (lookupSym_none_builtin hl) (fun r hd => absurd hd (hr r)) (fun _ => hi) hsh
 
 theorem regDecl_shape {st ns d st'} (h : regDecl st ns d = .ok st') : Shape st.items ns d st'.items := by
   cases d with
-  | type td => exact bindNew_shape h rfl (fun r hd => by cases hd) (fun vs hv => by cases hv)
-  | «alias» n r => exact bindNew_shape h rfl (fun r hd => by cases hd) (fun vs hv => by cases hv)
-  | annot n => exact bindNew_shape h rfl (fun r hd => by cases hd) (fun vs hv => by cases hv)
+  | type td => exact bindNew_shape h rfl (fun r hd => by cases hd) (fun vs hv => by cases hv) rfl
+  | «alias» n r => exact bindNew_shape h rfl (fun r hd => by cases hd) (fun vs hv => by cases hv) rfl
+  | annot n => exact bindNew_shape h rfl (fun r hd => by cases hd) (fun vs hv => by cases hv) rfl
   | annotType n =>
     simp only [regDecl] at h
     split at h
@@ -57,8 +67,12 @@ theorem regDecl_shape {st ns d st'} (h : regDecl st ns d = .ok st') : Shape st.i
       split at h
       · cases h
       · rw [(checkCanon_items h).1]
-        exact .fresh n .other rfl (lookupSym_none hl) (lookupSym_none_builtin hl) (fun r hd => by cases hd) (fun _ vs hv => by cases hv)
+        exact .fresh n .other rfl (lookupSym_none hl) (lookupSym_none_builtin hl) (fun r hd => by cases hd) (fun _ vs hv => by cases hv) rfl
   | imp t =>
+    simp only [regDecl] at h
+    cases h
+    exact .skip rfl
+  | patch q =>
     simp only [regDecl] at h
     cases h
     exact .skip rfl
@@ -80,7 +94,7 @@ theorem regDecl_shape {st ns d st'} (h : regDecl st ns d = .ok st') : Shape st.i
     · rename_i hl
       rw [(checkCanon_items h).1]
       exact .fresh r.name (.routes [r.version]) rfl (lookupSym_none hl) (lookupSym_none_builtin hl) (fun r' hd => by cases hd; rfl)
-        (fun hne => absurd rfl (hne r))
+        (fun hne => absurd rfl (hne r)) rfl
 
 theorem lookup_cons_ne {α β} [BEq α] [LawfulBEq α] {l : List (α × β)} {k k' : α} {v : β} (h : k' ≠ k) :
     ((k, v) :: l).lookup k' = l.lookup k' := by
@@ -126,7 +140,7 @@ theorem RegInv2.step {items P ns d items'} (hI : RegInv2 items P) (hs : Shape it
       · simp only [List.mem_singleton, Prod.mk.injEq] at hm
         obtain ⟨_, rfl⟩ := hm
         simp [anyName] at hn
-  | fresh name i hn hl hnb hri hnr =>
+  | fresh name i hn hl hnb hri hnr _ =>
     have hnoP : ∀ d', (ns, d') ∈ P → anyName d' ≠ some name := by
       intro d' hm hd'
       have := (hI.anyFound ns name).mpr ⟨d', hm, hd'⟩
@@ -164,7 +178,7 @@ theorem RegInv2.step {items P ns d items'} (hI : RegInv2 items P) (hs : Shape it
         have hdr : ∃ r, d = .route r := by
           cases d with
           | route r => exact ⟨r, rfl⟩
-          | type _ | «alias» _ _ | annot _ | annotType _ | imp _ =>
+          | type _ | «alias» _ _ | annot _ | annotType _ | imp _ | patch _ =>
             exact absurd rfl (hnr (fun r hd => by cases hd) vs)
         obtain ⟨r, rfl⟩ := hdr
         have hi := hri r rfl
@@ -308,12 +322,70 @@ theorem buildEnv_inv2 {fs E} (h : buildEnv fs = .ok E) : RegInv2 E.items (pairs 
       have := regFiles_inv2 (P := []) ⟨by simp, by simp, by simp, by simp⟩ hst
       simpa using this
 
+/-! ## the environment, entry by entry, is the list of named definitions -/
+
+def namedEntry : String × Decl → Option (Key × Option TypeDecl)
+  | (ns, d) => (anyName d).map fun n => ((ns, n), declShape d)
+
+def RegInv3 (items : List (Key × Item)) (P : List (String × Decl)) : Prop :=
+  items.map (fun p => (p.1, shapeOf p.2)) = (P.filterMap namedEntry).reverse
+
+theorem RegInv3.step {items P ns d items'} (hI : RegInv3 items P) (hs : Shape items ns d items') :
+    RegInv3 items' (P ++ [(ns, d)]) := by
+  unfold RegInv3 at hI ⊢
+  cases hs with
+  | skip hn => simp [List.filterMap_append, namedEntry, hn, hI]
+  | fresh name i hn _ _ _ _ hsh =>
+    simp [List.filterMap_append, namedEntry, hn, hI, hsh]
+  | more r vs hd _ _ =>
+    subst hd
+    have h1 : shapeOf (Item.routes (r.version :: vs)) = none := rfl
+    simp only [List.map_cons, h1, hI, List.filterMap_append, List.filterMap_cons, namedEntry, anyName, declShape,
+      Option.map_some, List.filterMap_nil, List.reverse_append, List.reverse_cons, List.reverse_nil, List.nil_append,
+      List.singleton_append]
+
+theorem regDecls_inv3 {ns} : ∀ {ds : List Decl} {st st' P}, RegInv3 st.items P → regDecls st ns ds = .ok st' →
+    RegInv3 st'.items (P ++ ds.map (fun d => (ns, d)))
+  | [], st, st', P, hI, h => by simp only [regDecls] at h; cases h; simpa using hI
+  | d :: ds, st, st', P, hI, h => by
+    simp only [regDecls] at h
+    split at h
+    · rename_i st1 h1
+      have := regDecls_inv3 (hI.step (regDecl_shape h1)) h
+      simpa [List.append_assoc] using this
+    · cases h
+
+theorem regFiles_inv3 : ∀ {fs : List File} {st st' P}, RegInv3 st.items P → regFiles st fs = .ok st' →
+    RegInv3 st'.items (P ++ pairs fs)
+  | [], st, st', P, hI, h => by simp only [regFiles] at h; cases h; simpa [pairs] using hI
+  | f :: fs, st, st', P, hI, h => by
+    simp only [regFiles] at h
+    split at h
+    · rename_i st1 h1
+      unfold regFile at h1
+      have hI1 := regDecls_inv3 (P := P) (by exact hI) h1
+      have := regFiles_inv3 hI1 h
+      simpa [pairs, List.append_assoc] using this
+    · cases h
+
+theorem buildEnv_inv3 {fs E} (h : buildEnv fs = .ok E) : RegInv3 E.items (pairs fs) := by
+  unfold buildEnv at h
+  split at h
+  · cases h
+  · rename_i st hst
+    split at h
+    · cases h
+    · cases h
+      have := regFiles_inv3 (P := []) (by simp [RegInv3]) hst
+      simpa using this
+
 /-- everything the later passes use of the environment -/
 structure EnvOK2 (E : Env) (fs : List File) : Prop where
   ok : EnvOK E fs
   inv2 : RegInv2 E.items (pairs fs)
+  inv3 : RegInv3 E.items (pairs fs)
 
-theorem buildEnv_ok2 {fs E} (h : buildEnv fs = .ok E) : EnvOK2 E fs := ⟨buildEnv_ok h, buildEnv_inv2 h⟩
+theorem buildEnv_ok2 {fs E} (h : buildEnv fs = .ok E) : EnvOK2 E fs := ⟨buildEnv_ok h, buildEnv_inv2 h, buildEnv_inv3 h⟩
 
 theorem EnvOK.kindOf_eq {E fs} (hE : EnvOK E fs) (k : Key) : kindOf E k = kindS fs k := by
   unfold kindOf kindS
